@@ -61,6 +61,10 @@ RULE = (
     "(remove_large_pts=10, where the l=0 boundary value matters), a dipole and a quadrupole component, one mixed H-X molecule "
     "at degree 22 and molecular robust cases; thorough adds 8 anisotropic solves with the DEFAULT options (family "
     "bvp-aniso-default-options, not required, documents non-convergence). "
+    "weak-density: off-centre / anisotropic / molecular densities at total charge lam in [1e-6, 1e-4] (three cases per run at "
+    "1e-6..2e-6): V[lam rho]/lam against V[rho] and, on atom grids, against the exact potential. All robust families also "
+    "evaluate the returned potential EXACTLY at the nuclei and 1e-13 / 1e-10 away; a post-condition on coulomb_potential "
+    "(every call in the process) compares the closed-form part with the monitor's own erf sum there. "
     "A case is non-trivial when at least one solve converged and was compared; non-convergence reported by the library "
     "(ValueError 'didn't converge') discards the case."
 )
@@ -81,6 +85,16 @@ ASSUMPTIONS = [
     "solve_ode_bvp draws its initial guess from numpy's global RNG; the harness seeds it per case",
     "robust solver on molecules: smooth = exponents 0.3..1.6 (atoms: 0.3..3), charges 0.5..4 per centre; scale of the robust clauses = "
     "sum|c| + total core charge (the numerical part solves rho - core)",
+    "weak densities: decided for charge scales 1e-6..1e-4 on Clenshaw-Curtis/Becke, HandyMod, Handy and (ode tol 1e-4) Gauss-Legendre/Becke "
+    "grids, where the measured deviation of V[lam rho]/lam from V[rho] on the unchanged tree is <= 3.7e-5 over 4 global-RNG seeds "
+    "(tolerance 1e-2 = documented accuracy, >= 270 x); Simpson/Becke grids (seed-dependent noise 4e-5 at 1e-6, 4e-3 at 1e-8) and "
+    "scales below 1e-6 are NOT decided; comparison with the exact potential only where the base error is <= 1e-4 (not for "
+    "molecules, not for first node 1e-5 with include_origin=False). Strong densities: charge factors 1e2..2e3 (>= 1e4 the "
+    "library frequently reports non-convergence)",
+    "points exactly on / within 1e-10 of a grid centre: only the closed-form part (coulomb_potential) and the robust potential for "
+    "density == core model are decided there. solve_poisson_bvp's interpolant returns exactly 0 for |r| < 1e-300 by construction "
+    "(so the robust potential AT a nucleus is the analytic part only) and u(r)/r is rounding noise/r for r <= 1e-10 (5e-3 at 1e-13); "
+    "solve_poisson_ivp is not defined below the lower end of r_interval (10 % error at r <= 1e-4) - observed, not decided",
     "shipped core parameters contain s functions only (checked at start-up), so the C17 p-type formula defect cannot enter",
 ]
 LEVEL_TEXT = "Exploration: held on every executed density/grid/option combination inside the stated envelope; hundreds of solves, not a proof."
@@ -643,11 +657,13 @@ def _run(ctx, family, params):
         al = _loguniform(rng, 0.4, 3.0, len(atn))
         subj = _subject("solve_poisson_bvp:molgrid", params["rad"], params["opts"]) + f":{len(atn)}-centre"
         # the accuracy is relative to the total charge at every decided charge scale (linearity): strong densities
-        # (charges 1e2..1e5) are solved as well as O(1) ones.  WEAK densities (total charge below ~1e-8) are NOT decided:
+        # (charge factors 1e2..2e3) are solved as well as O(1) ones.  WEAK densities (total charge below ~1e-8) are NOT decided:
         # solve_ode_bvp starts from a random O(1) initial guess and SciPy's collocation tolerance is partly absolute, so
         # on the unchanged tree V[lam*rho]/lam deviates from V[rho] by 1e-5 .. 40 % for lam = 1e-9 .. 1e-10 depending on
         # the radial grid (measured; DESIGN.md 8.2 "recorded, not decided") - no clause can separate a defect from that noise.
-        lam = [1.0, 1.0, 1.0, float(_loguniform(rng, 1e2, 1e5))][int(params.get("k", 0)) % 4]
+        # Charge factors >= 1e4 are outside the converging envelope: on the unchanged tree solve_bvp exceeds max_nodes there
+        # (probe, 24 molecular solves: factor <= 1e3 converged 24/24, 1e4 18/24, 1e5 4/24 -> 3/36 discards = INCONCLUSIVE).
+        lam = [1.0, 1.0, 1.0, float(_loguniform(rng, 1e2, 2e3))][int(params.get("k", 0)) % 4]
         if lam != 1.0:
             subj += ":strong-density"
             ctx.count("bvp-mol:scaled-density")
